@@ -1,6 +1,7 @@
 package main
 
 import (
+	"unicode/utf8"
 	"fmt"
 	"go/token"
 	"go/types"
@@ -595,7 +596,7 @@ func (m *machine) next(instr *ssa.Next, it value) value {
 		b := m.strAt(it.s, it.i)
 		if !b.IsConst() {
 			if !m.decide(m.ctx.ULt(b, m.ctx.BV(0x80, 8))) {
-				m.unsupported("range over symbolic non-ASCII string at %s", m.where())
+				return m.nextRuneSym(it)
 			}
 			i := it.i
 			it.i++
@@ -603,23 +604,41 @@ func (m *machine) next(instr *ssa.Next, it value) value {
 		}
 		if it.s.IsConcrete() {
 			rest := it.s.s[it.i:]
-			for _, r := range rest {
-				i := it.i
-				it.i += len(string(r))
-				if r == 0xFFFD {
-					it.i = i + 1
-				}
-				return tuple{m.ctx.True, m.ctx.BV(uint64(i), 64), m.ctx.BV(uint64(r), 32)}
-			}
+			r, w := utf8.DecodeRuneInString(rest)
+			i := it.i
+			it.i += w
+			return tuple{m.ctx.True, m.ctx.BV(uint64(i), 64), m.ctx.BV(uint64(r), 32)}
 		}
 		if b.cval < 0x80 {
 			i := it.i
 			it.i++
 			return tuple{m.ctx.True, m.ctx.BV(uint64(i), 64), m.ctx.BV(b.cval, 32)}
 		}
-		m.unsupported("range over partially symbolic non-ASCII string at %s", m.where())
+		return m.nextRuneSym(it)
 	}
 	panic(fmt.Sprintf("next on %T", it))
+}
+
+// nextRuneSym decodes the rune at it.i of a (partly) symbolic string by executing
+// the real unicode/utf8.DecodeRuneInString from its SSA (forking on the byte classes).
+func (m *machine) nextRuneSym(it *strIter) value {
+	fn := m.eng.utf8DecodeFn()
+	if fn == nil {
+		m.unsupported("range over symbolic non-ASCII string (unicode/utf8 not loaded) at %s", m.where())
+	}
+	hi := it.i + 4
+	if hi > it.s.Len() {
+		hi = it.s.Len()
+	}
+	res := m.callFunction(nil, fn, []value{it.s.slice(it.i, hi)}, nil).(tuple)
+	r := res[0].(*Term)
+	size := int(m.concretize(res[1].(*Term), "rune width"))
+	i := it.i
+	it.i += size
+	if r.Width() != 32 {
+		r = m.ctx.ZExt(r, 32)
+	}
+	return tuple{m.ctx.True, m.ctx.BV(uint64(i), 64), r}
 }
 
 // ---------- type assertions ----------
